@@ -69,6 +69,8 @@ def cases(draw, tier):
         case["stale"] = draw(st.sampled_from(["x", "stale line\n" * 400, "PREFIX : <http://stale.org/>\n:Old {\n}\n" * 2500]))   # the file exists already
     if size == "small" and draw(st.integers(0, 2)) == 0:
         case["targets"] = draw(st.lists(st.sampled_from(g["classes"]), min_size=1, max_size=len(g["classes"]), unique=True))
+        # class names are accepted as full, <bracketed> or prefixed IRIs: the caller's list must come back as it was given
+        case["target_spelling"] = draw(st.lists(st.integers(0, 2), min_size=len(case["targets"]), max_size=len(case["targets"])))
     if size == "small" and "targets" not in case and draw(st.integers(0, 3)) == 0:
         # shape-map shapes (they can be emptied by a threshold and must come back at a lower one)
         from . import c10
@@ -86,6 +88,21 @@ def strategy(tier):
     return cases(tier)
 
 
+def spelled_targets(case):
+    out = []
+    for c, sp in zip(case.get("targets") or [], case.get("target_spelling") or [0] * 99):
+        if c.startswith("_:"):
+            out.append(c)
+            continue
+        pref = None
+        for ns_, lab in (case.get("ns") or {}).items():
+            loc = c[len(ns_):]
+            if c.startswith(ns_) and loc and all(ch.isalnum() or ch == "_" for ch in loc):
+                pref = "%s:%s" % (lab, loc)
+        out.append(pref if (sp == 2 and pref) else "<%s>" % c if sp >= 1 else c)
+    return out
+
+
 def make_kwargs(case, ns_obj, shared=None):
     """shared: dict of argument objects the caller reuses between Shapers (lists); None = fresh copies"""
     g = case["g"]
@@ -101,7 +118,7 @@ def make_kwargs(case, ns_obj, shared=None):
         if case.get("sm_with_all"):
             kw["all_classes_mode"] = True
     elif case.get("targets"):
-        kw["target_classes"] = shared["targets"] if shared else list(case["targets"])
+        kw["target_classes"] = shared["targets"] if shared else spelled_targets(case)
     else:
         kw["all_classes_mode"] = True
     if case.get("ignore"):
@@ -177,7 +194,7 @@ def check(case):
         labels.add("nontrivial")
     ns_shared = copy.deepcopy(case["ns"])
     ns_before = copy.deepcopy(ns_shared)
-    shared = {"targets": list(case.get("targets") or []), "ignore": list(case.get("ignore") or [])}
+    shared = {"targets": spelled_targets(case), "ignore": list(case.get("ignore") or [])}
     shared_before = copy.deepcopy(shared)
     with sut.tmpdir() as d:
         def history():
